@@ -171,7 +171,8 @@ func injectTables(d *tableDump) func(e *engine.Engine) {
 }
 
 func checkC12(c *Ctx) {
-	maxN := 4
+	// quick tier: short sequences (the table-simulation job of every variant is unbounded anyway)
+	maxN := 3
 	if !c.Quick() {
 		maxN = 6
 	}
@@ -244,7 +245,7 @@ func checkC12(c *Ctx) {
 }
 
 func (c *Ctx) lexerFlagJobs() []Job {
-	maxN := 3
+	maxN := 2
 	if !c.Quick() {
 		maxN = 4
 	}
